@@ -22,7 +22,7 @@ cp "$dst/demo_test.go" "/repo/$pkg/zz_seeded_demo_test.go"
 rm -f "/repo/$pkg/zz_seeded_demo_test.go"
 det=""
 for c in $id $others; do
-  o=$(mktemp -d /tmp/vout.XXXXXX); cp -r /verif/props.json /verif/known_findings.json /verif/ledger "$o"/
+  o=$(mktemp -d /tmp/vout.XXXXXX); cp -r /verif/props.json /verif/known_findings.json /verif/ledger /verif/bounded "$o"/
   out=$(/verif/bin/vcheck check $c --verif "$o" --no-replay 2>&1); rc=$?
   n=$(echo "$out" | grep -c '^VIOLATION')
   first=$(echo "$out" | grep '^  failed obligation' | head -3 | sed 's/^  failed obligation //' | tr '\n' ';')
